@@ -186,10 +186,14 @@ func runsFor(prop, tier string) []run {
 		mk := func(init, alpha []string, restarts, faults, w int) eb.Cfg {
 			return eb.Cfg{RF: 1, N: 2, Alphabet: alpha, Oracles: []string{"c19"}, Drain: true, Real: true, Clone: true, MaxWrites: w, MaxRestarts: restarts, MaxFaults: faults, MaxSnaps: 2, InitOps: init}
 		}
+		polling := func(src []string) []string {
+			return append(append([]string{}, src...), "BReg", "BStart", "StepX", "StepX", "StepX", "StepX", "StepX", "StepX", "StepX", "StepX")
+		}
 		return []run{
-			{"clone-vs-start-polling-all-interleavings", mk(src2, []string{"BReg", "BStart", "StepX", "CloneProc", "Step"}, 0, 0, 3), pick(34, 36), minutes(pickf(2, 8))},
-			{"clone-with-source-writes-and-outage", mk(src1, []string{"BReg", "BStart", "StepX", "CloneProc", "Step", "W0", "SrcDown", "SrcUp"}, 0, 1, 3), pick(30, 40), minutes(pickf(1.2, 8))},
-			{"clone-killed-and-restarted", mk(src1, []string{"BReg", "BStart", "StepX", "CloneProc", "Step", "Kill"}, 1, 0, 2), pick(30, 45), minutes(pickf(1, 8))},
+			{"clone-while-controller-polls", mk(polling(src2), []string{"CloneProc", "Step", "StepX"}, 0, 0, 3), pick(24, 30), minutes(pickf(0.8, 4))},
+			{"clone-with-source-writes-and-outage", mk(polling(src1), []string{"CloneProc", "Step", "StepX", "W0", "SrcDown", "SrcUp"}, 0, 1, 3), pick(24, 32), minutes(pickf(1.0, 6))},
+			{"clone-killed-and-restarted", mk(polling(src1), []string{"CloneProc", "Step", "StepX", "Kill"}, 1, 0, 2), pick(22, 40), minutes(pickf(0.6, 6))},
+			{"clone-vs-start-all-interleavings", mk(src2, []string{"BReg", "BStart", "StepX", "CloneProc", "Step"}, 0, 0, 3), pick(34, 40), minutes(pickf(1.0, 10))},
 		}
 	case "C13":
 		alpha := []string{"W0", "Snap", "Break", "Heal", "Remove", "MonFail", "MonWake", "Add", "Sync", "Verify", "ERR", "Restart"}
@@ -215,6 +219,18 @@ func runsFor(prop, tier string) []run {
 			{"rf3-from-1rw", mk(3, 4, started), pick(4, 6), minutes(pickf(0.8, 6))},
 			{"rf2-from-initial", mk(2, 3, nil), pick(6, 8), minutes(pickf(0.6, 4))},
 			{"rf1-from-initial", mk(1, 2, nil), pick(6, 8), minutes(pickf(0.4, 3))},
+			{"rf3-overlapping-adds", func() eb.Cfg {
+				c := mk(3, 4, started)
+				c.Alphabet = []string{"AddB", "AddF", "Sync", "Verify", "W", "MonFail", "MonWake", "Remove", "Restart"}
+				c.MaxAdds = 4
+				return c
+			}(), pick(5, 7), minutes(pickf(0.6, 5))},
+			{"rf2-overlapping-adds", func() eb.Cfg {
+				c := mk(2, 3, started)
+				c.Alphabet = []string{"AddB", "AddF", "Sync", "Verify", "W", "MonFail", "MonWake", "Remove"}
+				c.MaxAdds = 4
+				return c
+			}(), pick(5, 7), minutes(pickf(0.5, 4))},
 		}
 	}
 	return nil
